@@ -1,7 +1,8 @@
 (* C05  co_iter and crop return exactly the pairs / segments the mode calls for.
    [wf eps l]: what a Timeline iterates (C01). regions = support() of the support
    argument (a Segment counts as a one-segment timeline). Statements only. *)
-From PV Require Import Model.Timeline Proofs.SegmentP Proofs.SortedP Proofs.SupportP Proofs.CropP.
+From PV Require Import Model.AnnotationOps Proofs.SegmentP Proofs.SortedP Proofs.SupportP Proofs.CropP
+  Proofs.AnnotationInvP Proofs.AnnOverlapP.
 
 Section C05.
 Variable eps : Z.
@@ -59,6 +60,17 @@ Theorem C05_empty_support_gives_empty : forall m,
 Proof. exact (fun m => conj (crop_empty_timeline_support eps a m) (fun x => crop_empty_segment_support eps a x m)). Qed.
 End C05.
 
+(* Annotation.co_iter pairs the tracks of intersecting segments the same way: exactly the pairs of
+   tracks whose segments have a non-empty intersection, each once *)
+Theorem C05_annotation_co_iter_exact : forall eps, 0 <= eps -> forall a b s t s' t',
+  WF eps (a_tracks a) -> WF eps (a_tracks b) ->
+  (In ((s, t), (s', t')) (co_iter_ann eps a b) <->
+   In t (get_tracks a s) /\ In t' (get_tracks b s') /\ nonempty eps (sand s s') = true).
+Proof. exact ann_co_iter_exact. Qed.
+Theorem C05_annotation_co_iter_each_pair_once : forall eps, 0 <= eps -> forall a b,
+  WF eps (a_tracks a) -> WF eps (a_tracks b) -> NoDup (co_iter_ann eps a b).
+Proof. exact ann_co_iter_once. Qed.
+
 Example C05_nonvacuous :
   wf 0 [(0,2); (1,2); (3,4)] /\
   co_iter 0 [(0,2); (1,2); (3,4)] [(1,3); (3,5)] = [((0,2),(1,3)); ((1,2),(1,3)); ((3,4),(3,5))] /\
@@ -80,3 +92,5 @@ Print Assumptions C05_crop_mapping_lists_exactly_the_originals.
 Print Assumptions C05_timeline_support_equiv_its_support.
 Print Assumptions C05_segment_support_equiv_one_segment_timeline.
 Print Assumptions C05_empty_support_gives_empty.
+Print Assumptions C05_annotation_co_iter_exact.
+Print Assumptions C05_annotation_co_iter_each_pair_once.
